@@ -27,14 +27,13 @@ Init == segs = <<>>
 Next == \E x \in Symbols : CanAppend(segs, x) /\ segs' = Append(segs, x)
 Complete(s) == NWild(s) >= 1
 
-\* inside one component without dots, links or `**` nothing is Unspecified: strict = lenient
-Theorems ==
-  Complete(segs) => \A c \in Cands : Match(segs, c.p, {}, TRUE, <<>>) = Match(segs, c.p, {}, FALSE, <<>>)
-
-Emit ==
+\* Theorem: inside one component without dots, links or `**` nothing is Unspecified (every match
+\* holds under every reading); checked on the way, then the prescribed set is printed.
+TheoremAndEmit ==
   Complete(segs) =>
     LET mi == Matched(Cands, segs, <<>>)
         p  == Pat(segs, FALSE, <<>>, "")
         mu == MustOf(mi, p)
-    IN PrintT(ToJson([segs |-> segs, must |-> mu, may |-> MayOf(mi, p) \ mu]))
+    IN /\ \A x \in mi : x.s
+       /\ PrintT(ToJson([segs |-> segs, must |-> mu, may |-> MayOf(mi, p) \ mu]))
 =============================================================================
